@@ -261,6 +261,8 @@ PLANS["C15"] = {
     "explanation": "Bounded: eval_flatex_consuming_vars agrees with eval_flatex_cloning and with an independent reference reduction; no moved-out value reaches an operator; single-occurrence variables are not cloned.",
 }
 PLANS["C15"]["native_probes"] = {t: [("c15::consuming_vs_cloning_36", 20000)] for t in ("quick", "thorough")}
+# once more on cargo's release profile (debug assertions off), as for C07
+PLANS["C15"]["native_exhaustive_release"] = {t: [("c15::consuming_vs_cloning_3", 3, 400000000)] for t in ("quick", "thorough")}
 PLANS["C15"]["native_exhaustive"] = {"quick": [("c15::consuming_vs_cloning_3", 3, 400000000), ("c15::consuming_vs_cloning_4", 3, 400000000), ("c15::consuming_vs_cloning_5", 2, 400000000)],
                                      "thorough": [("c15::consuming_vs_cloning_3", 3, 400000000), ("c15::consuming_vs_cloning_4", 3, 400000000), ("c15::consuming_vs_cloning_5", 3, 400000000),
                                                   ("c15::consuming_vs_cloning_6", 1, 400000000)]}
